@@ -318,17 +318,29 @@ def batches(ctx):
     def impl_a(c):
         t = build(c["tree"])
         try:
-            r = T.binarize(t)
+            r = list(T.binarize(t))
             res = [canon(x) for x in r]
         except RecursionError:
             return {"err": "RecursionError"}
         except Exception as e:  # noqa: BLE001
             return {"err": type(e).__name__}
-        return {"results": res, "is_list": isinstance(r, list)}
+        # every returned refinement must be a tree of its own: parent pointers consistent, no node object shared
+        # with another refinement or with the input
+        seen, bad = {id(n) for n in t.traverse()} if len(r) > 1 else set(), None
+        for k, x in enumerate(r):
+            for n in x.traverse():
+                if any(c.up is not n for c in n.children):
+                    bad = f"refinement #{k}: a child's parent pointer does not lead to its parent"
+                if id(n) in seen and len(r) > 1:
+                    bad = bad or f"refinement #{k} shares a node object with another refinement (or with the input tree)"
+                seen.add(id(n))
+            if x.up is not None:
+                bad = bad or f"refinement #{k}: the root has a parent"
+        return {"results": res, "is_list": True, "malformed": bad}
 
     def enc_out_a(c, r):
         codes = bundle_codes(c["tree"])
-        if "err" in r or not all(tree_is_binary(x) for x in r["results"]):
+        if "err" in r or r.get("malformed") or not all(tree_is_binary(x) for x in r["results"]):
             return "None"
         return copt(clist(enc_bt(x, codes) for x in r["results"]))
 
@@ -337,6 +349,8 @@ def batches(ctx):
             return True, "tree with a single-child node: outside the property's domain (no polytomy semantics)"
         if "err" in r:
             return False, f"binarize raised {r['err']}"
+        if r.get("malformed"):
+            return False, "binarize returned objects that are not independent well-formed trees: " + r["malformed"]
         return check_refinement_list(c["tree"], r["results"])
 
     ctx.dist["enumerator"] = {
